@@ -118,7 +118,8 @@ Record reqinfo := {
   q_pattern : bytes;                      (* c.Pattern(): "" when c.Route() == nil *)
   q_has_route : bool;                     (* c.Route() != nil *)
   q_params : list (bytes * bytes);        (* c.Params() *)
-  q_dump : bytes                          (* httputil.DumpRequest(c.Request(), false) *)
+  q_dump : bytes;                         (* httputil.DumpRequest(c.Request(), false) *)
+  q_log_enabled : bool                    (* the slog.Handler given to the middleware is enabled at level Error *)
 }.
 
 (* recovery.go:103-108; slog.Any of a string / int / other value *)
@@ -139,6 +140,11 @@ Definition record (q : reqinfo) (v : pval) (stack : bytes) : logrec :=
                   ++ match params with [] => [] | _ => [(S2B "params", VGroup params)] end
                   ++ [(S2B "error", error_attr v)] |}.
 
+(* logger.Error(...): slog.Logger.log asks the handler's Enabled first; an error returned by the
+   handler's Handle is dropped *)
+Definition logged (q : reqinfo) (v : pval) (stack : bytes) (log : list logrec) : list logrec :=
+  if q_log_enabled q then log ++ [record q v stack] else log.
+
 (* DefaultHandleRecovery: http.Error(w, "Internal Server Error", 500) *)
 Definition handle500 (w : wstate) : wstate :=
   write (write_header w 500) (S2B "Internal Server Error
@@ -153,7 +159,7 @@ Definition recovery_mw (q : reqinfo) (stack : bytes) (next : handler)
       if match v with PErr e => errors_is_abort e | _ => false end
       then (Panicked v, w', log)                                  (* panic(e): the same value *)
       else
-        let log' := log ++ [record q v stack] in
+        let log' := logged q v stack log in
         if negb (written w') && negb (connIsBroken v)
         then (Returned, handle500 w', log')
         else (Returned, w', log')
